@@ -219,7 +219,7 @@ func (engine) Generate(r *lib.Rng, tier string, i int) any {
 		}
 		perm = append(ts, ns...)
 	}
-	hasRerun, hasConv := false, false
+	hasRerun, hasConv, hasHandler := false, false, false
 	for _, si := range perm {
 		if nf == 0 {
 			break
@@ -246,7 +246,21 @@ func (engine) Generate(r *lib.Rng, tier string, i int) any {
 			continue
 		}
 		n := s.n
-		switch g.weighted(45, 22, 10, 8, 7, g.convW) {
+		switch g.weighted(45, 22, 10, 8, 7, g.convW, 9) {
+		case 6:
+			// a state handler of the node fails.  Not together with self-panicking streams (an
+			// invoke-native handler makes the run loop itself read the node's stream); a post-handler
+			// not on a lazily transforming lambda (same reason: it would read the node's input).
+			switch {
+			case hasConv:
+				n.Beh, n.Err = "fail", g.errSpec()
+			case n.Flav != "t" && r.Chance(50, 100):
+				n.Beh, n.Err = "postfail", g.errSpec()
+				hasHandler = true
+			default:
+				n.Beh, n.Err = "prefail", g.errSpec()
+				hasHandler = true
+			}
 		case 0:
 			n.Beh, n.Err = "fail", g.errSpec()
 		case 1:
@@ -267,7 +281,7 @@ func (engine) Generate(r *lib.Rng, tier string, i int) any {
 				n.Beh, n.Err = "fail", g.errSpec()
 			}
 		default:
-			if s.convOK() && !hasRerun {
+			if s.convOK() && !hasRerun && !hasHandler {
 				n.Beh, n.ID, n.Flav = "convpanic", g.id(), "s"
 				hasConv = true
 			} else {
@@ -296,7 +310,7 @@ func (engine) Generate(r *lib.Rng, tier string, i int) any {
 		last := c.G.Stages[len(c.G.Stages)-1]
 		n := last[r.Intn(len(last))]
 		if n.Kind == "lam" && n.Beh == "ok" {
-			if len(last) >= 2 && !hasBeh(c.G, "rerun") && r.Chance(40, 100) {
+			if len(last) >= 2 && !hasBeh(c.G, "rerun") && !hasBeh(c.G, "prefail") && !hasBeh(c.G, "postfail") && r.Chance(40, 100) {
 				n.Beh, n.ID, n.Flav = "convpanic", g.id(), "s"
 			} else {
 				n.Beh, n.Err, n.Flav = "item", g.errSpec(), "s"
